@@ -68,7 +68,7 @@ def load_dd():
 
 def preflight():
     need = [
-        (DD.bdd, '_request_reordering'), (DD.bdd, 'REORDER_STARTS'),
+        (DD.bdd, '_request_reordering'), (DD.bdd, 'logger'), (DD.bdd, 'REORDER_STARTS'),
         (DD.bdd, 'REORDER_FACTOR'), (DD.bdd, 'GROWTH_FACTOR'),
         (DD.bdd, 'open'), (DD.copy, 'open'), (DD.copy, 'os'),
         (DD.copy, 'shutil'), (DD.copy, '_open_shelf'),
@@ -98,6 +98,7 @@ class AllocSeam:
     def __init__(self):
         self.real = None
         self.calls = 0          # requests since `begin_op`
+        self.points = 0         # logger pre-emption points since `begin_op`
         self.total = 0
         self.hook = None        # callable(bdd, k) or None
         self.fired = 0          # _NeedsReordering raised since `begin_op`
@@ -118,7 +119,7 @@ class AllocSeam:
             if h is not None and not seam.in_hook:
                 seam.in_hook = True
                 try:
-                    h(bdd, seam.calls)
+                    h(bdd, seam.calls + seam.points)
                 finally:
                     seam.in_hook = False
             try:
@@ -129,13 +130,48 @@ class AllocSeam:
         _request_reordering.__wrapped__ = real
         m._request_reordering = _request_reordering
 
+        # second family of pre-emption points: the module-level `logger` of
+        # dd.bdd (called at the start of every swap, after every sifted
+        # variable, around reorder): a pass-through proxy
+        real_logger = m.logger
+
+        class _LoggerProxy:
+            def __getattr__(self, name):
+                return getattr(real_logger, name)
+
+            def _point(self):
+                seam.points += 1
+                h = seam.hook
+                if h is not None and not seam.in_hook:
+                    seam.in_hook = True
+                    try:
+                        h(None, seam.calls + seam.points)
+                    finally:
+                        seam.in_hook = False
+
+            def debug(self, *a, **kw):
+                self._point()
+                return real_logger.debug(*a, **kw)
+
+            def info(self, *a, **kw):
+                self._point()
+                return real_logger.info(*a, **kw)
+
+            def warning(self, *a, **kw):
+                self._point()
+                return real_logger.warning(*a, **kw)
+        self.real_logger = real_logger
+        m.logger = _LoggerProxy()
+
     def uninstall(self):
         if self.real is not None:
             DD.bdd._request_reordering = self.real
+            DD.bdd.logger = self.real_logger
             self.real = None
 
     def begin_op(self, hook=None):
         self.calls = 0
+        self.points = 0
         self.fired = 0
         self.hook = hook
 
